@@ -207,7 +207,7 @@ def mutations(frame, nsub, nins, rnd):
     for pos in range(n):
         orig = frame[pos]
         subs = [x for x in range(256) if x != orig] if nsub >= 255 else \
-            sorted(set([1, 0x3D, 0x30, 0x20, 0x38, 0, orig ^ 1, (orig + 1) % 256] + [rnd.randrange(256) for _ in range(nsub)]) - {orig})[:nsub + 4]
+            sorted(set([1, 0x3D, 0x30, 0x20, 0x38, 0, orig ^ 1, (orig + 1) % 256, orig ^ 0x80, 0xB2, 0xB3, 0xB9] + [rnd.randrange(256) for _ in range(nsub)]) - {orig})[:nsub + 8]
         for x in subs:
             yield ("sub", pos, x), frame[:pos] + bytes([x]) + frame[pos + 1:]
         yield ("del", pos, None), frame[:pos] + frame[pos + 1:]
